@@ -12,9 +12,11 @@ package main
 //	          STL, DXF, SVG bytes must be identical, 3MF identical after unzipping.
 import (
 	"archive/zip"
+	"bytes"
 	"crypto/sha256"
 	"encoding/binary"
 	"encoding/json"
+	"flag"
 	"fmt"
 	"go/ast"
 	"go/parser"
@@ -22,6 +24,7 @@ import (
 	"io"
 	"math"
 	"os"
+	"os/exec"
 	"path/filepath"
 	"runtime"
 	"sort"
@@ -42,6 +45,10 @@ import (
 )
 
 func main() {
+	if len(os.Args) > 1 && os.Args[1] == "child" {
+		childMain(os.Args[2:])
+		return
+	}
 	Main("C09", checkC09, func(c *Ctx) (string, []byte, error) { return effsum.Gen(c.Repo) })
 }
 
@@ -276,6 +283,37 @@ func hashTris(ts []*sdf.Triangle3) string {
 	return fmt.Sprintf("%d:%x", len(ts), h.Sum(nil)[:8])
 }
 
+// collectLines runs a 2D renderer into a slice: the exact segment sequence.
+func collectLines(s sdf.SDF2, r render.Render2) []*sdf.Line2 {
+	ch := make(chan []*sdf.Line2)
+	var lines []*sdf.Line2
+	done := make(chan struct{})
+	go func() {
+		for ls := range ch {
+			lines = append(lines, ls...)
+		}
+		close(done)
+	}()
+	r.Render(s, sdf.NewLine2Buffer(ch))
+	close(ch)
+	<-done
+	return lines
+}
+
+func hashLines(ls []*sdf.Line2) string {
+	h := sha256.New()
+	var b [8]byte
+	for _, l := range ls {
+		for _, v := range l {
+			for _, x := range []float64{v.X, v.Y} {
+				binary.LittleEndian.PutUint64(b[:], math.Float64bits(x))
+				h.Write(b[:])
+			}
+		}
+	}
+	return fmt.Sprintf("%d:%x", len(ls), h.Sum(nil)[:8])
+}
+
 func hashBytes(b []byte) string {
 	s := sha256.Sum256(b)
 	return fmt.Sprintf("%d:%x", len(b), s[:8])
@@ -391,7 +429,7 @@ func observeBuilt(env *concshapes.Env, j job, counter *int64, s2 sdf.SDF2, s3 sd
 			render.To3MF(s, path, r)
 			return unzipped(path)
 		}
-	case "dxf", "svg":
+	case "dxf", "svg", "lines":
 		if s2 == nil {
 			s2 = sdf.Slice2D(s3, v3.Vec{}, v3.Vec{Z: 1})
 		}
@@ -413,6 +451,9 @@ func observeBuilt(env *concshapes.Env, j job, counter *int64, s2 sdf.SDF2, s3 sd
 		default:
 			return "", fmt.Errorf("unknown 2D renderer %s", j.rname)
 		}
+		if j.sink == "lines" {
+			return hashLines(collectLines(s, r)), nil
+		}
 		if j.sink == "dxf" {
 			render.ToDXF(s, path, r)
 		} else {
@@ -425,6 +466,226 @@ func observeBuilt(env *concshapes.Env, j job, counter *int64, s2 sdf.SDF2, s3 sd
 		return hashBytes(b), nil
 	}
 	return "", fmt.Errorf("unknown sink %s", j.sink)
+}
+
+// ---------------------------------------------------------------------------- other processes
+
+func jobSpec(j job) string { return fmt.Sprintf("%s:%s:%s:%d", j.model, j.rname, j.sink, j.cells) }
+
+func parseJob(sp string) (job, error) {
+	f := strings.Split(sp, ":")
+	if len(f) != 4 {
+		return job{}, fmt.Errorf("bad job %q", sp)
+	}
+	c, err := strconv.Atoi(f[3])
+	return job{model: f[0], rname: f[1], sink: f[2], cells: c}, err
+}
+
+// childMain: render the jobs reps times in this process (its GOMAXPROCS comes from the
+// environment) and write {job key: [observable per repetition]} as JSON.
+func childMain(args []string) {
+	fs := flag.NewFlagSet("child", flag.ExitOnError)
+	repo := fs.String("repo", "/repo", "")
+	tmp := fs.String("tmp", os.TempDir(), "")
+	jobs := fs.String("jobs", "", "")
+	reps := fs.Int("reps", 1, "")
+	result := fs.String("result", "", "")
+	fs.Parse(args)
+	if dn, err := os.OpenFile(os.DevNull, os.O_WRONLY, 0); err == nil {
+		os.Stdout = dn
+	}
+	env := &concshapes.Env{Repo: *repo, Tmp: *tmp}
+	out := map[string][]string{}
+	var counter int64
+	for rep := 0; rep < *reps; rep++ {
+		for _, sp := range strings.Split(*jobs, ",") {
+			j, err := parseJob(sp)
+			if err != nil {
+				fmt.Fprintln(os.Stderr, err)
+				os.Exit(2)
+			}
+			got, err := observe(env, j, &counter)
+			if err != nil {
+				fmt.Fprintln(os.Stderr, j.key(), err)
+				os.Exit(2)
+			}
+			out[j.key()] = append(out[j.key()], got)
+		}
+	}
+	b, _ := json.Marshal(out)
+	if err := os.WriteFile(*result, b, 0o644); err != nil {
+		fmt.Fprintln(os.Stderr, err)
+		os.Exit(2)
+	}
+}
+
+// acrossProcesses renders the jobs in one fresh process per GOMAXPROCS value (all processes at
+// the same time), reps times each: every observable must equal the first one of the GOMAXPROCS=1 process.
+func acrossProcesses(c *Ctx, r *Report, jobs []job, gs []int, reps int) (int, error) {
+	self, err := os.Executable()
+	if err != nil {
+		return 0, err
+	}
+	specs := make([]string, len(jobs))
+	for i, j := range jobs {
+		specs[i] = jobSpec(j)
+	}
+	type res struct {
+		g   int
+		out map[string][]string
+		err error
+	}
+	ch := make(chan res, len(gs))
+	for _, g := range gs {
+		go func(g int) {
+			rf := filepath.Join(c.Out, fmt.Sprintf("c09-child-%d-%d.json", os.Getpid(), g))
+			defer os.Remove(rf)
+			cmd := exec.Command(self, "child", "-repo", c.Repo, "-tmp", c.Out, "-jobs", strings.Join(specs, ","), "-reps", fmt.Sprint(reps), "-result", rf)
+			cmd.Env = append(os.Environ(), fmt.Sprintf("GOMAXPROCS=%d", g))
+			var stderr bytes.Buffer
+			cmd.Stderr = &stderr
+			if err := cmd.Run(); err != nil {
+				ch <- res{g, nil, fmt.Errorf("child GOMAXPROCS=%d: %v: %s", g, err, stderr.String())}
+				return
+			}
+			b, err := os.ReadFile(rf)
+			if err != nil {
+				ch <- res{g, nil, err}
+				return
+			}
+			var out map[string][]string
+			err = json.Unmarshal(b, &out)
+			ch <- res{g, out, err}
+		}(g)
+	}
+	all := map[int]map[string][]string{}
+	for range gs {
+		x := <-ch
+		if x.err != nil {
+			return 0, x.err
+		}
+		all[x.g] = x.out
+	}
+	n := 0
+	for _, j := range jobs {
+		key := "nondet-process:" + j.key()
+		r.Case("process/"+j.rname+"/"+j.sink, key, true)
+		want := all[gs[0]][j.key()][0]
+		bad := ""
+		for _, g := range gs {
+			for rep, got := range all[g][j.key()] {
+				n++
+				if got != want && bad == "" {
+					bad = fmt.Sprintf("process with GOMAXPROCS=%d, render #%d: %s", g, rep+1, got)
+				}
+			}
+		}
+		if bad != "" {
+			r.Violate(key, fmt.Sprintf("%s rendered with %s at %d cells (%s) differs between processes / repetitions: process with GOMAXPROCS=%d, render #1: %s; %s",
+				j.model, j.rname, j.cells, j.sink, gs[0], want, bad),
+				map[string]interface{}{"model": j.model, "renderer": j.rname, "cells": j.cells, "sink": j.sink, "gomaxprocs": gs, "repetitions": reps})
+		}
+	}
+	return n, nil
+}
+
+// ---------------------------------------------------------------------------- file histories
+
+// fileHistories: every file writer must produce the same bytes whatever the output path held
+// before (an earlier bigger render, longer / shorter / equally long unrelated content).
+func fileHistories(c *Ctx, r *Report, env *concshapes.Env, rng *Rng) (int, error) {
+	sph, _ := sdf.Sphere3D(1)
+	cir, _ := sdf.Circle2D(1)
+	trisOf := func(cells int) []*sdf.Triangle3 { return render.ToTriangles(sph, render.NewMarchingCubesOctree(cells)) }
+	linesOf := func(cells int) []*sdf.Line2 { return collectLines(cir, render.NewMarchingSquaresQuadtree(cells)) }
+	type writer struct {
+		name, ext string
+		write     func(path string, cells int) error
+	}
+	ws := []writer{
+		{"ToSTL/mcu", "stl", func(p string, n int) error { render.ToSTL(sph, p, render.NewMarchingCubesUniform(n)); return nil }},
+		{"ToSTL/mco", "stl", func(p string, n int) error { render.ToSTL(sph, p, render.NewMarchingCubesOctree(n)); return nil }},
+		{"SaveSTL", "stl", func(p string, n int) error { return render.SaveSTL(p, trisOf(n)) }},
+		{"To3MF/mcu", "3mf", func(p string, n int) error { render.To3MF(sph, p, render.NewMarchingCubesUniform(n)); return nil }},
+		{"ToDXF/msu", "dxf", func(p string, n int) error { render.ToDXF(cir, p, render.NewMarchingSquaresUniform(n)); return nil }},
+		{"SaveDXF", "dxf", func(p string, n int) error { return render.SaveDXF(p, linesOf(n)) }},
+		{"ToSVG/msq", "svg", func(p string, n int) error { render.ToSVG(cir, p, render.NewMarchingSquaresQuadtree(n)); return nil }},
+		{"SaveSVG", "svg", func(p string, n int) error { return render.SaveSVG(p, "fill:none;stroke:black;stroke-width:0.1", linesOf(n)) }},
+	}
+	read := func(p, ext string) (string, error) {
+		if ext == "3mf" {
+			u, err := unzipped(p)
+			if err != nil {
+				return "unreadable 3MF package (" + err.Error() + ")", nil
+			}
+			return u, nil
+		}
+		b, err := os.ReadFile(p)
+		if err != nil {
+			return "", err
+		}
+		return hashBytes(b), nil
+	}
+	small, big := 8, 16
+	n := 0
+	for _, w := range ws {
+		fresh := filepath.Join(env.Tmp, fmt.Sprintf("c09-fh-%d-%d.%s", os.Getpid(), atomic.AddInt64(&fileSeq, 1), w.ext))
+		if err := w.write(fresh, small); err != nil {
+			return n, err
+		}
+		want, err := read(fresh, w.ext)
+		fb, _ := os.ReadFile(fresh)
+		os.Remove(fresh)
+		if err != nil {
+			return n, err
+		}
+		for _, prior := range []string{"bigger render by the same writer", "longer unrelated content", "equally long unrelated content", "shorter unrelated content", "empty file"} {
+			p := filepath.Join(env.Tmp, fmt.Sprintf("c09-fh-%d-%d.%s", os.Getpid(), atomic.AddInt64(&fileSeq, 1), w.ext))
+			garbage := func(k int) []byte {
+				g := make([]byte, k)
+				for i := range g {
+					g[i] = byte(rng.U64())
+				}
+				return g
+			}
+			var err error
+			switch prior {
+			case "bigger render by the same writer":
+				err = w.write(p, big)
+			case "longer unrelated content":
+				err = os.WriteFile(p, garbage(2*len(fb)+1000), 0o644)
+			case "equally long unrelated content":
+				err = os.WriteFile(p, garbage(len(fb)), 0o644)
+			case "shorter unrelated content":
+				err = os.WriteFile(p, garbage(37), 0o644)
+			default:
+				err = os.WriteFile(p, nil, 0o644)
+			}
+			if err != nil {
+				return n, err
+			}
+			before, _ := os.Stat(p)
+			if err := w.write(p, small); err != nil {
+				os.Remove(p)
+				return n, err
+			}
+			got, err := read(p, w.ext)
+			after, _ := os.Stat(p)
+			os.Remove(p)
+			if err != nil {
+				return n, err
+			}
+			key := fmt.Sprintf("file-history:%s|%s", w.name, prior)
+			r.Case("file-history/"+w.ext, key, true)
+			n++
+			if got != want {
+				r.Violate(key, fmt.Sprintf("%s of a %d-cell render to a path that held %s (%d bytes) gives %s (%d bytes); to a fresh path it gives %s (%d bytes): the file depends on the history of the path",
+					w.name, small, prior, before.Size(), got, after.Size(), want, len(fb)),
+					map[string]interface{}{"writer": w.name, "prior": prior, "cells": small, "prior_cells": big})
+			}
+		}
+	}
+	return n, nil
 }
 
 type c09Corpus struct {
@@ -722,6 +983,42 @@ func checkC09(c *Ctx, r *Report) error {
 			}
 		}
 	}
+	// what the path held before
+	runtime.GOMAXPROCS(16)
+	nfh, err := fileHistories(c, r, env, rng)
+	if err != nil {
+		return err
+	}
+	configs += nfh
+	// fine grids (parallel code paths that only long rows / deep trees take), exact sequences,
+	// in one fresh process per GOMAXPROCS value, several renders each
+	fine := []job{
+		{model: "circle2d", rname: "msu", sink: "lines", cells: 150},
+		{model: "circle2d", rname: "msq", sink: "lines", cells: 256},
+		{model: "polygon2d", rname: "msu", sink: "lines", cells: 100 + rng.Intn(60)},
+		{model: "union2d-polymin", rname: "msu", sink: "dxf", cells: 200 + rng.Intn(100)},
+		{model: "involutegear", rname: "msq", sink: "svg", cells: 333},
+		{model: "hex2d", rname: "msu", sink: "lines", cells: 400},
+		{model: "sphere3d", rname: "mco", sink: "tri", cells: 48},
+		{model: "box3d", rname: "mco", sink: "stl", cells: 64},
+		{model: "union3d-polymin", rname: "mco", sink: "tri", cells: 96 + rng.Intn(32)},
+		{model: "cylinder3d", rname: "mco", sink: "stl", cells: 33},
+		{model: "sphere3d", rname: "mcu", sink: "stl", cells: 40},
+		{model: "cone3d", rname: "mcu", sink: "tri", cells: 56},
+	}
+	if c.Tier != "quick" {
+		fine = append(fine,
+			job{model: "text2d", rname: "msu", sink: "lines", cells: 300},
+			job{model: "bolt", rname: "mco", sink: "stl", cells: 128},
+			job{model: "gyroid3d", rname: "mco", sink: "tri", cells: 100},
+			job{model: "cache2d", rname: "msq", sink: "dxf", cells: 400},
+			job{model: "extrude-cache2d", rname: "mcu", sink: "tri", cells: 80})
+	}
+	npr, err := acrossProcesses(c, r, fine, []int{1, 2, 3, 8, 16}, TierN(c.Tier, 3, 8, 4))
+	if err != nil {
+		return err
+	}
+	configs += npr
 	for _, j := range jobs {
 		r.Case("render/"+j.rname+"/"+j.sink, j.key(), true)
 	}
@@ -733,7 +1030,7 @@ func checkC09(c *Ctx, r *Report) error {
 	r.Coverage["render_configurations"] = configs
 	r.Coverage["batchSize"] = B
 	r.Coverage["gomaxprocs"] = []int{1, 2, 3, 4, 8, 16}
-	r.Rule = "layer cases: one layerYZ.Evaluate of a (ny+1)*(nz+1) layer through the hook, with an evaluating wrapper that gives the j-th point the value j (and sleeps pseudo-randomly in half of the cases); recorded point->slot list compared with Sched.batch_plan by coqc, and layer = map f points checked directly; sizes: k*B-1, k*B, k*B+1 for k in 1,2,3,7 in every factorisation with ny<12, random small / medium / thin / large layers; non-trivial = more than one batch; distinct by (ny,nz,sleepy). render cases: one (model, renderer, sink) job rendered 1 + 6 + rounds times: alone under GOMAXPROCS=1 (reference), under GOMAXPROCS 2,3,4,8,16,1 in shuffled order with run-dependent sleeping Evaluate wrappers on half of them, and all jobs concurrently; triangle sequence hash / STL, DXF, SVG bytes / unzipped 3MF entries must be identical; non-trivial = always; distinct by job."
+	r.Rule = "layer cases: one layerYZ.Evaluate of a (ny+1)*(nz+1) layer through the hook, with an evaluating wrapper that gives the j-th point the value j (and sleeps pseudo-randomly in half of the cases); recorded point->slot list compared with Sched.batch_plan by coqc, and layer = map f points checked directly; sizes: k*B-1, k*B, k*B+1 for k in 1,2,3,7 in every factorisation with ny<12, random small / medium / thin / large layers; non-trivial = more than one batch; distinct by (ny,nz,sleepy). render cases: one (model, renderer, sink) job rendered 1 + 6 + rounds times: alone under GOMAXPROCS=1 (reference), under GOMAXPROCS 2,3,4,8,16,1 in shuffled order with run-dependent sleeping Evaluate wrappers on half of them, and all jobs concurrently; triangle sequence hash / STL, DXF, SVG bytes / unzipped 3MF entries must be identical; non-trivial = always; distinct by job. process cases: fine-grid jobs (2D uniform/quadtree at 100..400 cells as exact segment sequences and DXF/SVG bytes, octree at 33..128 cells and uniform at 40..56 cells as exact triangle sequences and STL bytes) rendered 3+ times in one fresh process per GOMAXPROCS in 1,2,3,8,16, all processes at once; every observable must equal the first render of the GOMAXPROCS=1 process. file-history cases: each of ToSTL (uniform, octree), SaveSTL, To3MF, ToDXF, SaveDXF, ToSVG, SaveSVG writes a small render to a path that already holds a bigger render by the same writer / longer / equally long / shorter unrelated bytes / nothing; the bytes (3MF: unzipped entries) must equal those written to a fresh path."
 	r.Trusted = append(r.Trusted,
 		"harness/effsum (see C10) for the premise that no map range, math/rand, time, unsynchronised shared store or extra go statement is reachable from Render/Evaluate; the whitelist is coq/Sys/Sched.v section 4",
 		"hook render.VerifLayerEvaluate (verif tag) calls evalOnce.Do(evalRoutines), newLayerYZ and layerYZ.Evaluate as marchingCubes does",
